@@ -264,3 +264,386 @@ theorem abort_stops (pruneObjs : List Live) (localNs : List String) (s : St) (t 
       · exact ⟨"canceled", by simp [St.emit, hw, h]⟩
 
 end CliUtils.Props.C01
+
+/-! ## no orphan at any request between the merge and the final inventory task
+
+The invariant: every object annotated with this inventory is listed in the stored inventory, in the current store AND in the
+snapshot taken after every mutating request so far.  It is preserved by every apply step for an object the stored inventory
+lists (merge-before-apply provides that: `merge_superset`), by every prune step, and by every wait phase (the environment
+only removes objects). -/
+namespace CliUtils.Props.C01
+open CliUtils CliUtils.Sys
+
+/-- no orphan in a store: every object carrying this inventory's annotation is listed in the stored inventory -/
+def NoOrphanCl (c : Cluster) : Prop := ∀ o ∈ c.objs, o.owner = invId → ∃ l, c.inv = some l ∧ o.id ∈ l
+
+/-- … in the current store and in the snapshot after every mutating request made so far -/
+def Safe (s : St) : Prop := NoOrphanCl s.cl ∧ ∀ m ∈ s.muts, NoOrphanCl { objs := m.snap.objs, inv := m.snap.inv }
+
+theorem mem_put (c : Cluster) (o x : Live) (h : x ∈ (c.put o).objs) : x = o ∨ x ∈ c.objs := by
+  unfold Cluster.put at h
+  split at h
+  · simp only [List.mem_map] at h
+    obtain ⟨y, hy, rfl⟩ := h
+    split
+    · exact Or.inl rfl
+    · exact Or.inr hy
+  · simp only [List.mem_append, List.mem_singleton] at h
+    rcases h with h | h
+    · exact Or.inr h
+    · exact Or.inl h
+
+theorem noOrphan_put (c : Cluster) (o : Live) (h : NoOrphanCl c) (ho : o.owner = invId → ∃ l, c.inv = some l ∧ o.id ∈ l) :
+    NoOrphanCl (c.put o) := by
+  intro x hx hown
+  rw [put_inv]
+  rcases mem_put c o x hx with rfl | hx
+  · exact ho hown
+  · exact h x hx hown
+
+theorem noOrphan_remove (c : Cluster) (i : Id) (h : NoOrphanCl c) : NoOrphanCl (c.remove i) := by
+  intro x hx hown
+  exact h x (List.mem_filter.mp hx).1 hown
+
+theorem noOrphan_freshUid (c : Cluster) (h : NoOrphanCl c) : NoOrphanCl c.freshUid.2 := h
+
+/-- a store effect that keeps the store orphan-free -/
+def EffSafe (eff : Cluster → Cluster × String) : Prop := ∀ c, NoOrphanCl c → NoOrphanCl (eff c).1
+
+theorem safe_mutReq (s : St) (verb : String) (id : Id) (dry : Bool) (pre prop : String) (eff : Cluster → Cluster × String)
+    (hs : Safe s) (he : NoOrphanCl s.cl → NoOrphanCl (eff s.cl).1) : Safe (s.mutReq verb id dry pre prop eff).1 := by
+  have h := mutReq_spec s verb id dry pre prop eff
+  simp only [] at h
+  obtain ⟨⟨m, hm, _, _, _, _, _, _, _, _, hsnap⟩, hcl, _⟩ := h
+  have hcl' : NoOrphanCl (s.mutReq verb id dry pre prop eff).1.cl := by
+    rw [hcl]; split
+    · exact hs.1
+    · exact he hs.1
+  refine ⟨hcl', ?_⟩
+  intro x hx
+  rw [hm] at hx
+  rcases List.mem_cons.mp hx with rfl | hx
+  · rw [hsnap]; exact hcl'
+  · exact hs.2 x hx
+
+theorem safe_of_eq (s s' : St) (hs : Safe s) (hcl : s'.cl = s.cl) (hm : s'.muts = s.muts) : Safe s' := by
+  unfold Safe; rw [hcl, hm]; exact hs
+
+/-! ### prune steps -/
+
+theorem abandonEffect_safe (live : Live) : EffSafe (abandonEffect live) := by
+  intro c h
+  unfold abandonEffect
+  split
+  · exact h
+  · exact noOrphan_put c _ h (by intro hown; simp [invId] at hown)
+
+theorem deleteEffect_safe (f : Bool) (live : Live) : EffSafe (deleteEffect f live) := by
+  intro c h
+  unfold deleteEffect
+  split
+  · exact h
+  · rename_i cur hcur
+    split
+    · exact h
+    · split
+      · refine noOrphan_put c _ h ?_
+        intro hown
+        have hmem : cur ∈ c.objs := List.mem_of_find?_eq_some hcur
+        exact h cur hmem hown
+      · exact noOrphan_remove c _ h
+
+theorem pruneOne_safe (group : String) (uids localNs : List String) (s : St) (live : Live) (hs : Safe s) :
+    Safe (pruneOne group uids localNs s live) := by
+  cases hd : pruneDecision uids localNs s live <;> simp only [pruneOne, hd]
+  · exact safe_of_eq _ _ hs (by simp) (by simp)
+  · exact safe_of_eq _ _ hs (by simp) (by simp)
+  · exact safe_of_eq _ _ hs (by simp) (by simp)
+  · have h1 := safe_mutReq s "update" live.id false "" "" (abandonEffect live) hs (abandonEffect_safe live s.cl)
+    split
+    · exact safe_of_eq _ _ h1 (by simp) (by simp)
+    · exact safe_of_eq _ _ h1 (by simp) (by simp)
+  · exact safe_of_eq _ _ hs (by simp) (by simp)
+  · exact safe_of_eq _ _ hs (by simp) (by simp)
+  · split <;> exact safe_of_eq _ _ hs (by simp) (by simp)
+  · exact safe_of_eq _ _ hs (by simp) (by simp)
+  · have h1 := safe_mutReq s "delete" live.id false live.uid (propagationOf s) (deleteEffect (hasFinalizer s.run live.id) live) hs
+      (deleteEffect_safe _ live s.cl)
+    split
+    · exact safe_of_eq _ _ h1 (by simp) (by simp)
+    · exact safe_of_eq _ _ h1 (by simp) (by simp)
+
+/-! ### apply steps: the object must be listed (merge-before-apply) -/
+
+/-- the stored inventory lists `id` -/
+def Listed (c : Cluster) (id : Id) : Prop := ∃ l, c.inv = some l ∧ id ∈ l
+
+theorem createLive_safe (m : Manifest) (frm : Option String) (la : Bool) (c : Cluster) (h : NoOrphanCl c) (hl : Listed c m.id) :
+    NoOrphanCl (createLive m frm la c).1 := by
+  unfold createLive
+  simp only []
+  exact noOrphan_put _ _ (noOrphan_freshUid c h) (fun _ => hl)
+
+theorem patchLive_id (m : Manifest) (frm : Option String) (la : Bool) (old : Live) : (patchLive m frm la old).id = old.id := rfl
+
+theorem ssaEffect_safe (m : Manifest) (frm : Option String) (dry : Bool) (c : Cluster) (h : NoOrphanCl c) (hl : Listed c m.id) :
+    NoOrphanCl (ssaEffect m frm dry c).1 := by
+  unfold ssaEffect
+  split
+  · split
+    · exact h
+    · exact createLive_safe m frm false c h hl
+  · rename_i old hold
+    split
+    · exact h
+    · refine noOrphan_put c _ h (fun _ => ?_)
+      have : old.id = m.id := by
+        have := List.find?_some hold; simpa using this
+      rw [patchLive_id, this]; exact hl
+
+theorem kubectlApply_safe (group : String) (s : St) (m : Manifest) (frm : Option String) (hs : Safe s) (hl : Listed s.cl m.id) :
+    Safe (kubectlApply group s m frm) := by
+  unfold kubectlApply
+  split
+  · unfold ssaApply
+    simp only []
+    have h1 := safe_mutReq s "patch" m.id (s.run.opts.dry == .server) "" "" (ssaEffect m frm (s.run.opts.dry == .server)) hs
+      (fun h => ssaEffect_safe m frm _ s.cl h hl)
+    split
+    · exact safe_of_eq _ _ h1 (by simp) (by simp)
+    · split
+      · split
+        · exact safe_of_eq _ _ h1 (by simp) (by simp)
+        · split <;> exact safe_of_eq _ _ h1 (by simp) (by simp)
+      · exact safe_of_eq _ _ h1 (by simp) (by simp)
+  · unfold csaApply
+    simp only []
+    cases hg : s.get m.id with
+    | none => exact safe_of_eq _ _ hs (by simp) (by simp)
+    | some o =>
+      cases o with
+      | none =>
+        simp only []
+        split
+        · exact safe_of_eq _ _ hs (by simp) (by simp)
+        · have h1 := safe_mutReq s "create" m.id false "" "" (fun c => ((createLive m frm true c).1, "ok")) hs
+            (fun h => createLive_safe m frm true s.cl h hl)
+          split
+          · exact safe_of_eq _ _ h1 (by simp) (by simp)
+          · split <;> exact safe_of_eq _ _ h1 (by simp) (by simp)
+      | some old =>
+        simp only []
+        split
+        · exact safe_of_eq _ _ hs (by simp) (by simp)
+        · have hid : old.id = m.id := by
+            unfold St.get at hg
+            split at hg
+            · cases hg
+            · simp only [Option.some.injEq] at hg
+              have := List.find?_some hg; simpa using this
+          have h1 := safe_mutReq s "patch" m.id false "" "" (fun c => (c.put (patchLive m frm true old), "ok")) hs
+            (fun h => noOrphan_put s.cl _ h (fun _ => by rw [patchLive_id, hid]; exact hl))
+          split <;> exact safe_of_eq _ _ h1 (by simp) (by simp)
+
+theorem manifestOf_id (s : St) (id : Id) (m : Manifest) (h : manifestOf s id = some m) : m.id = id := by
+  unfold manifestOf at h
+  have := List.find?_some h
+  simpa using this
+
+/-- **an apply step keeps the store orphan-free if the stored inventory lists the object** -/
+theorem applyOne_safe (group : String) (s : St) (id : Id) (hs : Safe s) (hl : Listed s.cl id) : Safe (applyOne group s id) := by
+  unfold applyOne
+  cases hm : manifestOf s id with
+  | none => exact hs
+  | some m =>
+    simp only []
+    cases hdec : applyDecision s m with
+    | fail r => exact safe_of_eq _ _ hs (by simp) (by simp)
+    | skip r => exact safe_of_eq _ _ hs (by simp) (by simp)
+    | go frm => exact kubectlApply_safe group s m frm hs (by rw [manifestOf_id s id m hm]; exact hl)
+
+theorem applyFold_safe (group : String) (ids : List Id) (s : St) (hs : Safe s) (hl : ∀ id ∈ ids, Listed s.cl id) :
+    Safe (ids.foldl (applyOne group) s) ∧ (ids.foldl (applyOne group) s).cl.inv = s.cl.inv := by
+  induction ids generalizing s with
+  | nil => exact ⟨hs, rfl⟩
+  | cons id ids ih =>
+    simp only [List.foldl_cons]
+    have h1 := applyOne_safe group s id hs (hl id (by simp))
+    have hinv := applyOne_keeps_inv group s id
+    have hl' : ∀ x ∈ ids, Listed (applyOne group s id).cl x := by
+      intro x hx
+      obtain ⟨l, hl1, hl2⟩ := hl x (by simp [hx])
+      exact ⟨l, by rw [hinv]; exact hl1, hl2⟩
+    obtain ⟨h2, h3⟩ := ih _ h1 hl'
+    exact ⟨h2, h3.trans hinv⟩
+
+theorem pruneFold_safe (group : String) (uids localNs : List String) (lives : List Live) (s : St) (hs : Safe s) :
+    Safe (lives.foldl (pruneOne group uids localNs) s) ∧ (lives.foldl (pruneOne group uids localNs) s).cl.inv = s.cl.inv := by
+  induction lives generalizing s with
+  | nil => exact ⟨hs, rfl⟩
+  | cons l ls ih =>
+    simp only [List.foldl_cons]
+    obtain ⟨h2, h3⟩ := ih _ (pruneOne_safe group uids localNs s l hs)
+    exact ⟨h2, h3.trans (pruneOne_keeps_inv group uids localNs s l)⟩
+
+end CliUtils.Props.C01
+
+namespace CliUtils.Props.C01
+open CliUtils CliUtils.Sys
+
+/-! ### wait phases: the environment only removes objects -/
+
+theorem flushWait_cl (group : String) (s : St) (w : Wait.WState Id) (n0 : Nat) :
+    (flushWait group s w n0).cl = s.cl ∧ (flushWait group s w n0).muts = s.muts := by
+  unfold flushWait
+  generalize w.events.drop n0 = l
+  induction l generalizing s with
+  | nil => exact ⟨rfl, rfl⟩
+  | cons e es ih => simpa using ih (s.emit (.wait group e.1 (wevName e.2)))
+
+theorem deliverState_safe (s : St) (d : Delivery) (hs : Safe s) :
+    Safe (deliverState s d) ∧ (deliverState s d).cl.inv = s.cl.inv := by
+  unfold deliverState
+  simp only []
+  have hcl : NoOrphanCl (if d.envRemove then s.cl.remove d.id else s.cl) := by
+    split
+    · exact noOrphan_remove _ _ hs.1
+    · exact hs.1
+  have hinv : (if d.envRemove then s.cl.remove d.id else s.cl).inv = s.cl.inv := by split <;> rfl
+  split
+  · exact ⟨⟨by simpa using hcl, by simpa using hs.2⟩, by simpa using hinv⟩
+  · exact ⟨⟨by simpa using hcl, by simpa using hs.2⟩, by simpa using hinv⟩
+
+theorem deliverOne_safe (group : String) (n : Nat) (ws : WaitSt) (d : Delivery) (hs : Safe ws.s) :
+    Safe (deliverOne group n ws d).1.s ∧ (deliverOne group n ws d).1.s.cl.inv = ws.s.cl.inv := by
+  unfold deliverOne
+  simp only []
+  split
+  · exact ⟨hs, rfl⟩
+  · split
+    · exact ⟨safe_of_eq _ _ hs rfl rfl, rfl⟩
+    · split
+      · exact ⟨safe_of_eq _ _ hs rfl rfl, rfl⟩
+      · have h2 := deliverState_safe ws.s d hs
+        generalize deliverState ws.s d = s2 at h2 ⊢
+        generalize Wait.statusUpdate { ws.w with mgr := s2.mgr } d.id (obsOf s2.cl d) = w'
+        have hf := flushWait_cl group { s2 with mgr := w'.mgr } w' ws.w.events.length
+        exact ⟨safe_of_eq _ _ h2.1 hf.1 hf.2, by simp only []; rw [hf.1]; exact h2.2⟩
+
+theorem deliverChain_safe (group : String) (n : Nat) (ds : List Delivery) (ws : WaitSt) (hs : Safe ws.s) :
+    Safe (deliverChain group n ws ds).s ∧ (deliverChain group n ws ds).s.cl.inv = ws.s.cl.inv := by
+  induction ds generalizing ws with
+  | nil => exact ⟨hs, rfl⟩
+  | cons d ds ih =>
+    simp only [deliverChain]
+    have h1 := deliverOne_safe group n ws d hs
+    split
+    · obtain ⟨h2, h3⟩ := ih _ h1.1
+      exact ⟨h2, h3.trans h1.2⟩
+    · exact h1
+
+theorem runWait_safe (group : String) (s : St) (ids : List Id) (cond : Wait.Cond) (hs : Safe s) :
+    Safe (runWait group s ids cond).1 ∧ (runWait group s ids cond).1.cl.inv = s.cl.inv := by
+  unfold runWait
+  simp only []
+  have f0 := flushWait_cl group { { s with waitIdx := s.waitIdx + 1 } with mgr := (Wait.start ids cond s.mgr s.cache).mgr }
+      (Wait.start ids cond s.mgr s.cache) 0
+  have e0 : Safe (flushWait group { { s with waitIdx := s.waitIdx + 1 } with mgr := (Wait.start ids cond s.mgr s.cache).mgr }
+      (Wait.start ids cond s.mgr s.cache) 0) ∧
+      (flushWait group { { s with waitIdx := s.waitIdx + 1 } with mgr := (Wait.start ids cond s.mgr s.cache).mgr }
+      (Wait.start ids cond s.mgr s.cache) 0).cl.inv = s.cl.inv :=
+    ⟨safe_of_eq _ _ hs f0.1 f0.2, by rw [f0.1]⟩
+  have efold : ∀ (chains : List (List Delivery)) (ws : WaitSt), (Safe ws.s ∧ ws.s.cl.inv = s.cl.inv) →
+      (Safe (chains.foldl (deliverChain group s.waitIdx) ws).s ∧ (chains.foldl (deliverChain group s.waitIdx) ws).s.cl.inv = s.cl.inv) := by
+    intro chains
+    induction chains with
+    | nil => intro ws h; exact h
+    | cons c cs ih =>
+      intro ws h
+      have h1 := deliverChain_safe group s.waitIdx c ws h.1
+      exact ih _ ⟨h1.1, h1.2.trans h.2⟩
+  have e1 := efold (ids.flatMap (scriptFor s.run cond))
+    { s := flushWait group { { s with waitIdx := s.waitIdx + 1 } with mgr := (Wait.start ids cond s.mgr s.cache).mgr }
+        (Wait.start ids cond s.mgr s.cache) 0, w := Wait.start ids cond s.mgr s.cache } e0
+  generalize (ids.flatMap (scriptFor s.run cond)).foldl (deliverChain group s.waitIdx) _ = ws at e1
+  have e2 : Safe (if !ws.stopped && !ws.w.cancelled && !ws.w.pending.isEmpty && decide (ws.s.run.cancel = CancelAt.wait s.waitIdx none) then
+      ({ ws with s := { ws.s with cancelled := true }, w := Wait.cancel ws.w, stopped := true } : WaitSt) else ws).s ∧
+      (if !ws.stopped && !ws.w.cancelled && !ws.w.pending.isEmpty && decide (ws.s.run.cancel = CancelAt.wait s.waitIdx none) then
+      ({ ws with s := { ws.s with cancelled := true }, w := Wait.cancel ws.w, stopped := true } : WaitSt) else ws).s.cl.inv = s.cl.inv := by
+    split
+    · exact ⟨safe_of_eq _ _ e1.1 rfl rfl, e1.2⟩
+    · exact e1
+  generalize (if !ws.stopped && !ws.w.cancelled && !ws.w.pending.isEmpty && decide (ws.s.run.cancel = CancelAt.wait s.waitIdx none) then
+      ({ ws with s := { ws.s with cancelled := true }, w := Wait.cancel ws.w, stopped := true } : WaitSt) else ws) = ws2 at e2
+  split
+  · exact e2
+  · split
+    · exact e2
+    · have f := flushWait_cl group { ws2.s with mgr := (Wait.timeout { ws2.w with mgr := ws2.s.mgr }).mgr }
+        (Wait.timeout { ws2.w with mgr := ws2.s.mgr }) ws2.w.events.length
+      exact ⟨safe_of_eq _ _ e2.1 f.1 f.2, by rw [f.1]; exact e2.2⟩
+
+/-! ### the tasks between the merge and the final inventory task -/
+
+/-- a task of the middle segment: apply (all its objects listed), prune or wait -/
+def MiddleTask (c : Cluster) (t : Task) : Prop :=
+  match t.kind with
+  | .apply ids => ∀ id ∈ ids, Listed c id
+  | .prune _ => True
+  | .wait _ _ => True
+  | _ => False
+
+theorem runTask_middle_safe (s : St) (t : Task) (pruneObjs : List Live) (localNs : List String) (hs : Safe s)
+    (hm : MiddleTask s.cl t) :
+    Safe (runTask s t pruneObjs localNs).1 ∧ (runTask s t pruneObjs localNs).1.cl.inv = s.cl.inv := by
+  unfold runTask
+  unfold MiddleTask at hm
+  cases hk : t.kind with
+  | invAdd ids => rw [hk] at hm; exact absurd hm (by simp)
+  | apply ids => rw [hk] at hm; exact applyFold_safe t.name ids s hs hm
+  | prune ids => exact pruneFold_safe t.name _ localNs _ s hs
+  | wait ids c => exact runWait_safe t.name s ids c hs
+  | invSet prev pe => rw [hk] at hm; exact absurd hm (by simp)
+
+/-- **no orphan at any request between the merge and the final inventory task**: starting from an orphan-free state whose
+stored inventory lists every object of every apply task (which `merge_superset` establishes), running any list of apply, prune
+and wait tasks — with any injected request failures, any status feed, finalizers, cancellation or watcher failure at any
+point — leaves the store orphan-free after EVERY mutating request (the snapshot taken after each one), and never changes the
+stored inventory -/
+theorem no_orphan_until_final (pruneObjs : List Live) (localNs : List String) (ts : List Task) (s : St) (hs : Safe s)
+    (hm : ∀ t ∈ ts, MiddleTask s.cl t) :
+    Safe (runTasks pruneObjs localNs s ts) ∧ (runTasks pruneObjs localNs s ts).cl.inv = s.cl.inv := by
+  induction ts generalizing s with
+  | nil => exact ⟨hs, rfl⟩
+  | cons t ts ih =>
+    unfold runTasks
+    simp only []
+    have hs1 : Safe (s.emit (.group t.name (t.action s.run.destroy) "Started")) := safe_of_eq _ _ hs rfl rfl
+    have h1 := runTask_middle_safe (s.emit (.group t.name (t.action s.run.destroy) "Started")) t pruneObjs localNs hs1 (hm t (by simp))
+    generalize runTask (s.emit (.group t.name (t.action s.run.destroy) "Started")) t pruneObjs localNs = r at h1 ⊢
+    have hinv : r.1.cl.inv = s.cl.inv := h1.2
+    have hs3 : Safe (r.1.emit (.group t.name (t.action s.run.destroy) "Finished")) := safe_of_eq _ _ h1.1 rfl rfl
+    split
+    · exact ⟨safe_of_eq _ _ hs3 rfl rfl, hinv⟩
+    · split
+      · exact ⟨safe_of_eq _ _ hs3 rfl rfl, hinv⟩
+      · split
+        · exact ⟨safe_of_eq _ _ hs3 rfl rfl, hinv⟩
+        · have hm' : ∀ t' ∈ ts, MiddleTask (r.1.emit (.group t.name (t.action s.run.destroy) "Finished")).cl t' := by
+            intro t' ht'
+            have := hm t' (by simp [ht'])
+            unfold MiddleTask at this ⊢
+            cases hk : t'.kind with
+            | apply ids =>
+              rw [hk] at this
+              intro id hid
+              obtain ⟨l, h1', h2'⟩ := this id hid
+              exact ⟨l, by simp only [emit_cl]; rw [hinv]; exact h1', h2'⟩
+            | invAdd ids => rw [hk] at this; exact this
+            | prune ids => trivial
+            | wait ids c => trivial
+            | invSet p pe => rw [hk] at this; exact this
+          obtain ⟨h2, h3⟩ := ih _ hs3 hm'
+          exact ⟨h2, by rw [h3]; simpa using hinv⟩
+
+end CliUtils.Props.C01
